@@ -280,6 +280,7 @@ def _subclass_of(cls):
     return _SUBCLASSES[cls]
 
 
+_FALLBACKS = [0]
 BUILD_HOWS = ["ctor", "validate", "validate_json", "deepcopy", "copy_deep", "subclass", "subclass_validate"]
 
 
@@ -312,10 +313,12 @@ def _construct(cj, how="ctor", rec_path_as=None):
             obj = _subclass_of(type(base)).model_validate(base.model_dump())
         if obj is not base and _live_paths(obj) != _live_paths(base):
             obj = base
+            _FALLBACKS[0] += 1
     except leanio.InfraError:
         raise
     except Exception:  # noqa: BLE001
         obj = base
+        _FALLBACKS[0] += 1
     if rec_path_as == "str":
         for r in _live_recordings(obj):
             r.path = os.fspath(r.path)
@@ -778,9 +781,15 @@ def _impl_session(inp):
                 out[n] = fh.read()
         return out
 
-    def changed(before, allowed=()):
+    known = {st["file"] + ".json" for st in inp["steps"] if "file" in st}
+
+    def changed(before, allowed=(), strict=False):
+        """files that differ from `before`: after a failing save (`strict`) any difference counts (nothing may be
+        written at all); otherwise only the files of the session count (a successful save / a load may keep
+        whatever else it likes next to them: the property does not speak about that)"""
         now = files_state()
-        return sorted(n for n in set(before) | set(now) if before.get(n) != now.get(n) and n not in allowed)
+        return sorted(n for n in set(before) | set(now) if before.get(n) != now.get(n) and n not in allowed
+                      and (strict or n in known))
     try:
         for k, st in enumerate(inp["steps"]):
             do = st.get("do")
@@ -804,7 +813,7 @@ def _impl_session(inp):
                         raise
                     except Exception as e:  # noqa: BLE001
                         out = canon_exc(e)
-                    ch = changed(before, (st["file"] + ".json",) if "val" in out else ())
+                    ch = changed(before, (st["file"] + ".json",) if "val" in out else (), strict="val" not in out)
                     if ch:
                         out["changed"] = ch
                     if _snapshot(obj) != snap:
@@ -973,7 +982,8 @@ def _holds_session(ctx, inp, io):
             continue
         out = out or {}
         if out.get("changed"):
-            return where + f"files other than the target of a successful save changed: {out['changed']}"
+            return where + (f"files changed that the step must not touch (a failing save: anything; otherwise the other "
+                            f"files of the session): {out['changed']}")
         if out.get("mutated"):
             return where + ("the conversion changed the document it was given (it reads differently after the call)"
                             if st.get("do") == "revive" else "the save / conversion changed the object it was given")
@@ -1163,26 +1173,31 @@ def _adapter_rows():
 
 
 def _dispatch_rows():
-    """(collection type, `collection_type` of the document `to_aeof` makes of a smallest instance of the class,
-    the same for an instance of a user-defined subclass of the class) -- observed by converting"""
-    conv = _converters()
-    if conv is None:
-        raise LookupError("soundevent.io.aoef.to_aeof / to_soundevent not found")
+    """(collection type, `collection_type` of the document `save` writes for a smallest instance of the class,
+    the same for an instance of a user-defined subclass of the class) -- observed by saving"""
     rng = random.Random("C18-dispatch")
     rows = []
-    for ty in aoefgen.TYPES:
-        cj = _minimal(rng, ty, "/c18 probe/x.wav")
-        seen = []
-        for how in ("ctor", "subclass"):
-            obj = _construct(cj, how)
-            if how == "subclass" and type(obj).__name__[:3] != "Lab":
-                seen.append("<no subclass instance could be built>")
-                continue
-            try:
-                seen.append(str(conv[0](obj).data.collection_type))
-            except Exception as e:  # noqa: BLE001
-                seen.append(f"<{type(e).__name__}>")
-        rows.append((ty, seen[0], seen[1]))
+    d = _fresh_dir()
+    try:
+        for ty in aoefgen.TYPES:
+            cj = _minimal(rng, ty, "/c18 probe/x.wav")
+            seen = []
+            for how in ("ctor", "subclass"):
+                obj = _construct(cj, how)
+                if how == "subclass" and type(obj).__name__[:3] != "Lab":
+                    seen.append("<no subclass instance could be built>")
+                    continue
+                target = os.path.join(d, f"{ty}_{how}.json")
+                try:
+                    _do_save(obj, target, None, "str")
+                    seen.append(str(json.load(open(target))["data"]["collection_type"]))
+                except leanio.InfraError:
+                    raise
+                except Exception as e:  # noqa: BLE001
+                    seen.append(f"<{type(e).__name__}>")
+            rows.append((ty, seen[0], seen[1]))
+    finally:
+        shutil.rmtree(d, ignore_errors=True)
     return rows
 
 
@@ -2188,10 +2203,13 @@ def run(ctx):
     ctx.stage("on disk / large", _special, ctx)
     ctx.stage("collections", _collections, ctx)
     ctx.stage("sessions", _sessions, ctx)
+    if _FALLBACKS[0]:
+        ctx.tally("construction path did not reproduce the content: constructors used instead", _FALLBACKS[0])
 
 
 def search(ctx, failures):
     rng = random.Random("C18-search")
+    ctx.run_cases(OPS["session"], _wf_sessions(ctx, _session_cases(ctx, rng, 1, 2)))
     stored, reloc, many, chain = _collection_cases(ctx, rng, 20)
     ctx.run_cases(OPS["stored"], _wf(ctx, stored))
     ctx.run_cases(OPS["relocate"], _wf(ctx, reloc))
